@@ -138,6 +138,8 @@ func genCase(t *rapid.T) Case {
 	return c
 }
 
+const runLimit = 60 * time.Second
+
 func workdir() string {
 	d := filepath.Join(hx.WorkDir(), "c10")
 	_ = os.MkdirAll(d, 0o755)
@@ -415,5 +417,5 @@ func TestProp(t *testing.T) {
 	if hx.YqPath() == "" {
 		t.Skip("no binary")
 	}
-	hx.RunProperty(t, hx.NewSub("multidoc", 700, 6000, genCase, check))
+	hx.RunProperty(t, hx.NewSub("multidoc", 700, 6000, genCase, check), hx.NewSub("formats", 500, 5000, genFCase, checkF))
 }
